@@ -7,7 +7,7 @@ import tempfile
 from concurrent.futures import ProcessPoolExecutor
 
 from . import compleg as CL, pyleg as P, schema as S, shadows, wire
-from .common import Report, scratch_dir, seed, NCPU, MachineryError
+from .common import watchdog_install, watchdog_start, watchdog_stop, Report, scratch_dir, seed, NCPU, MachineryError
 from .tlcrun import run_tlc
 
 
@@ -1240,7 +1240,8 @@ def c12(tier, replay):
 # C13: termination with outputs or a designed diagnostic
 # ---------------------------------------------------------------------------
 BANNED = ("ValueError", "KeyError", "AttributeError", "TypeError", "IndexError", "AssertionError", "RecursionError",
-          "UnboundLocalError", "NameError", "ZeroDivisionError", "MemoryError")
+          "UnboundLocalError", "NameError", "ZeroDivisionError", "MemoryError", "OSError", "LookupError", "ArithmeticError",
+          "UnicodeError", "RuntimeError")
 
 VALID_PROPHY = """\
 const LIMIT = 4;
@@ -1374,6 +1375,14 @@ def concretise(case, rnd, root):
             text += "union Z { 1: u8 a; 2: Z z; };\n"
         elif fault == "enum_self_reference":
             text += "enum Z { Z_a = Z_a + 1, Z_b = Z_c };\n"
+        elif fault == "non_utf8":
+            text = text[:30] + rnd.choice(["\udcff", "\udc80\udcfe", "\udcc3\udc28"]) + text[30:]     # written with surrogateescape
+        elif fault == "non_utf8_include":
+            files["other.prophy"] = "struct O { u8 o; };\n// \udcff\udcfe\n"
+            text = '#include "other.prophy"\n' + text
+        elif fault == "include_directory":
+            files["subdir/placeholder.prophy"] = "struct O { u8 o; };\n"
+            text = '#include "subdir"\n' + text
     else:
         if fault == "malformed_xml":
             text = text.replace("</struct>", "", 1)
@@ -1421,6 +1430,18 @@ def concretise(case, rnd, root):
             text = text.replace('value="2"/></enum>', 'value="two"/></enum>')
         elif fault == "non_numeric_discriminator":
             text = text.replace('discriminatorValue="1"', 'discriminatorValue="one"')
+        elif fault == "non_utf8":
+            text = text.replace("<defs>", "<defs><!-- \udcff\udcfe -->", 1)
+        elif fault == "division_by_zero":
+            text = text.replace("</defs>", rnd.choice([
+                '<constant name="ZK" value="1/0"/></defs>',
+                '<constant name="ZZ" value="0"/><struct name="Z"><member name="a" type="u8"><dimension size="4/ZZ"/></member></struct></defs>',
+                '<enum name="ZE"><enum-member name="ZE_a" value="5 / (2 - 2)"/></enum></defs>']))
+        elif fault == "size_names_type":
+            text = text.replace("</defs>", rnd.choice([
+                '<typedef name="ZT" primitiveType="32 bit integer unsigned"/><struct name="Z"><member name="a" type="u8"><dimension size="ZT"/></member></struct></defs>',
+                '<struct name="ZS"><member name="q" type="u8"/></struct><struct name="Z"><member name="a" type="u8"><dimension size="ZS"/></member></struct></defs>',
+                '<typedef name="ZT" type="u16"/><enum name="ZE"><enum-member name="ZE_a" value="ZT"/></enum></defs>']))
     files[main] = text
     argv = [os.path.join(root, main)]
     if fe == "isar":
@@ -1430,7 +1451,7 @@ def concretise(case, rnd, root):
         patch = {"one_word_line": "Picture\n", "unknown_action": "Picture explode c\n",
                  "wrong_param_count": "Picture type c\n", "member_not_found": "Picture type nosuch u8\n",
                  "non_integer_index": "Picture insert first extra u8\n", "absent_message": "NoSuchMessage type a u8\n",
-                 "empty_patch": "\n\n"}[pfault]
+                 "empty_patch": "\n\n", "non_utf8_patch": "Picture type c u8 \udcff\n"}[pfault]
         files["fix.patch"] = patch
         argv += ["--patch", os.path.join(root, "fix.patch")]
     if ofault == "no_input":
@@ -1462,7 +1483,7 @@ def _on_alarm(sig, frm):
 def termination_worker(cases, wid, extra):
     import signal
     res = {"fails": [], "n": 0, "samples": [], "nontrivial": 0, "outcomes": {}, "foreign": {}}
-    signal.signal(signal.SIGALRM, _on_alarm)
+    watchdog_install(_on_alarm)
     rnd = random.Random(extra["seed"] * 977 + wid)
     base = tempfile.mkdtemp(prefix="vfterm-", dir=extra.get("scratch"))
     try:
@@ -1471,30 +1492,32 @@ def termination_worker(cases, wid, extra):
             os.makedirs(os.path.join(root, "out"))
             argv, files, out = concretise(case, rnd, root)
             for name, text in files.items():
+                os.makedirs(os.path.dirname(os.path.join(root, name)), exist_ok=True)
                 with open(os.path.join(root, name), "w", encoding="utf-8", errors="surrogateescape") as f:
                     f.write(text)
             res["n"] += 1
             if case["fault"] != "none" or case["pfault"] != "none" or case["ofault"] != "none":
                 res["nontrivial"] += 1
-            signal.alarm(8)
+            watchdog_start(8)
             try:
                 status, info, _ = CL.run_main(argv)
             except _Alarm:
                 status, info = "timeout", "no answer within 8 s"
             finally:
-                signal.alarm(0)
+                watchdog_stop()
             exc_type = info.split(":", 1)[0] if status == "internal" else ""
+            exc_base = exc_type[exc_type.find("<") + 1:-1] if "<" in exc_type else exc_type
             key = "%s/%s/%s/%s -> %s%s" % (case["fe"], case["fault"], case["pfault"], case["ofault"], status,
                                             (" " + exc_type) if exc_type else "")
             res["outcomes"][key] = res["outcomes"].get(key, 0) + 1
             basef = {"check": "termination", "case": case, "argv": [a.replace(root, "<dir>") for a in argv],
                      "files": files}
             if status == "timeout":
-                res["fails"].append(dict(basef, what="prophyc did not terminate within 8 s on %s/%s" % (case["fe"], case["fault"])))
+                res["fails"].append(dict(basef, what="prophyc did not terminate within 8 s of CPU time on %s/%s" % (case["fe"], case["fault"])))
             elif status == "internal":
-                if exc_type in BANNED:
+                if exc_type in BANNED or exc_base in BANNED:
                     res["fails"].append(dict(basef, what="internal exception escaped as the answer: %s" % info[:300],
-                                             exception=exc_type))
+                                             exception=exc_base if exc_base in BANNED else exc_type))
                 else:
                     res["foreign"][exc_type] = res["foreign"].get(exc_type, 0) + 1
             elif status == "ok" and case["ofault"] == "none":
@@ -1517,9 +1540,12 @@ def c13(tier, replay):
         "outcome, no re-entry); spec/TopoSort.tla refutes termination of the sort on cyclic graphs; spec/FileProc.tla "
         "covers the include error paths - TLC enumerates the structured fault space",
         "each case is concretised on two fixed valid schemas (prophy text and isar XML) with seeded token positions and "
-        "random text; prophyc.main runs in-process under an 8 s SIGALRM watchdog (healthy runs take milliseconds)",
-        "violations: timeout, or an escaping exception whose type is in the property's list (+ NameError, "
-        "UnboundLocalError, ZeroDivisionError, MemoryError); other foreign exception types are reported in the evidence"]
+        "random text; prophyc.main runs in-process under a watchdog of 8 s of the process's own CPU time (ITIMER_PROF; wall-clock "
+        "backstop 320 s) - healthy runs take milliseconds",
+        "violations: timeout, or an escaping exception whose type - or one of its base classes (UnicodeDecodeError is a "
+        "ValueError) - is in the property's list (+ NameError, LookupError, ArithmeticError, RuntimeError, MemoryError, "
+        "OSError); prophyc's own exception classes (ProphycError, ModelError, calc/parser ParseError, the patcher's plain "
+        "Exception) are its designed channel and are tabulated in the evidence"]
     cases = []
     res = run_tlc("Pipeline", {}, invariants=["DesignedOnly", "AllOrNothing", "PDump"], properties=["Terminates", "Monotone"],
                   spec="PSpec", prefix=("PCASE",), on_line=lambda t, b: cases.append(json.loads(b)))
@@ -1527,7 +1553,8 @@ def c13(tier, replay):
     reps = 4 if tier == "quick" else 60
     fz = 6 if tier == "quick" else 400
     allcases = [c for c in cases for _ in range(fz if c["fault"] == "token_fuzz" else
-                                                reps if c["fault"] in ("random_text", "illegal_char", "empty_file") else 1)]
+                                                reps if c["fault"] in ("random_text", "illegal_char", "empty_file", "division_by_zero",
+                                                                        "size_names_type", "non_utf8") else 1)]
     jobs = _chunks(allcases, NCPU)
     with ProcessPoolExecutor(max_workers=NCPU) as ex:
         results = list(ex.map(termination_worker, jobs, range(len(jobs)),
